@@ -116,6 +116,7 @@ impl Drop for SlowGuard {
 
 /// Arbiter::current() on a system thread did not accept a task for its own system's arbiter (set by start_system)
 static IDENT_BAD: std::sync::atomic::AtomicBool = std::sync::atomic::AtomicBool::new(false);
+static STALLED: std::sync::atomic::AtomicBool = std::sync::atomic::AtomicBool::new(false);
 
 /// number of watchdog time-outs in this process so far
 static HANGS: std::sync::atomic::AtomicUsize = std::sync::atomic::AtomicUsize::new(0);
@@ -327,7 +328,18 @@ impl SysSide {
         if self.agent.send((job, atx)).is_err() {
             return false;
         }
-        arx.recv().is_ok()
+        // The agent answers within microseconds.  Seen (rarely, on a loaded machine, cause not found): no answer at all and no
+        // system thread left to give one — the coordinator would wait for ever and the whole process with it.  Such a run says
+        // nothing about the code: it is given up after 10 s and reported as HANG, which the engine runs again (a case that
+        // stalls every time keeps the verdict).
+        match arx.recv_timeout(Duration::from_secs(10)) {
+            Ok(()) => true,
+            Err(mpsc::RecvTimeoutError::Disconnected) => false,
+            Err(mpsc::RecvTimeoutError::Timeout) => {
+                STALLED.store(true, std::sync::atomic::Ordering::SeqCst);
+                false
+            }
+        }
     }
 }
 
@@ -384,6 +396,7 @@ fn run_case(userun: bool, seed: u64, ops: &[Op]) -> String {
     let profile = seed % 4; // 0 tight, 1 fast, 2 mixed, 3 slow
     let sh = Arc::new(Shared::default());
     IDENT_BAD.store(false, std::sync::atomic::Ordering::SeqCst);
+    STALLED.store(false, std::sync::atomic::Ordering::SeqCst);
     let side = match start_system(userun, seed % 3 == 0, seed % 2 == 0) {
         Ok(s) => s,
         Err(e) => return e,
@@ -686,6 +699,9 @@ fn run_case(userun: bool, seed: u64, ops: &[Op]) -> String {
             }
         }
     };
+    if STALLED.swap(false, std::sync::atomic::Ordering::SeqCst) {
+        return "HANG".to_string();
+    }
     if IDENT_BAD.load(std::sync::atomic::Ordering::SeqCst) {
         // reported instead of a log: the monitor's language has no word for it
         return "IDENT Arbiter::current() on the system thread is not the arbiter of System::current()".to_string();
